@@ -173,7 +173,7 @@ def tlc_mc(pid, module, cfg_body, constants, workers=NCPU, timeout=1800, need_ac
 _GEN = re.compile(r'^<<"GEN", "(.*)">>$')
 
 
-def tlc_gen(pid, module, cfg_body, constants, outfile, workers=NCPU, timeout=1800, simulate=None, xmx=None):
+def tlc_gen(pid, module, cfg_body, constants, outfile, workers=NCPU, timeout=1800, simulate=None, xmx=None, dfs=False):
     """Behaviour generation: collect the JSON printed by the Emit invariant into outfile (one per line)."""
     wd = workdir(pid)
     cfg = os.path.join(wd, module + ".cfg")
@@ -182,8 +182,10 @@ def tlc_gen(pid, module, cfg_body, constants, outfile, workers=NCPU, timeout=180
     if simulate:
         extra = ["-simulate", "num=%d" % simulate["num"], "-depth", str(simulate["depth"]), "-seed", str(seed())]
         workers = 1
+    if dfs:
+        workers = 1    # in-memory depth-first queue (no state serialisation)
     rc, out, wall = _java(module + ".tla", cfg, os.path.join(wd, "meta_" + module), workers, extra=extra,
-                          timeout=timeout, xmx=xmx or XMX)
+                          timeout=timeout, xmx=xmx or XMX, dfs=dfs)
     if rc == -9:
         raise ToolError("TLC timed out generating from %s" % module)
     n = 0
